@@ -117,7 +117,52 @@ class AParallel(ASubSampling):
                         return_utilities=return_utilities)
 
 
-_RNG_VARIANTS = {"TypiClust[rng-clusterer]": ATypiClustRng, "Clue[rng-clusterer]": AClueRng, "ProbCover[rng-clusterer]": AProbCoverRng,
+def _sampling_classifier():
+    """ensemble whose predictions are SAMPLED: sample_proba draws from the generator it is handed - the process-global one
+    when random_state is None (the behaviour of ClassFrequencyEstimator.sample_proba)"""
+    from skactiveml.base import SkactivemlClassifier
+
+    class SamplingClf(SkactivemlClassifier):
+        def fit(self, X, y, sample_weight=None):
+            self.classes_ = np.arange(2)
+            return self
+
+        def predict_proba(self, X):
+            raise core.Unencodable("predict_proba of the sampling ensemble")
+
+        def sample_proba(self, X, n_samples=2, random_state=None):
+            rng = facade.check_random_state_stub(random_state)
+            u = rng.random_sample((n_samples, len(X)))
+            return F.stack([u, 1 - u], axis=-1)
+    clf = SamplingClf(classes=[0, 1])
+    clf.classes_ = np.arange(2)
+    return clf
+
+
+class AQBCSample(pl.AQBC):
+    """QueryByCommittee whose committee is sampled from one probabilistic classifier (sample_predictions_method_name)"""
+
+    def __init__(self):
+        super().__init__("KL_divergence")
+        self.name = "QueryByCommittee[sample_proba]"
+
+    def make(self, seed, sym=True, inputs=None, **kw):
+        return pl.pool().QueryByCommittee(random_state=seed, sample_predictions_method_name="sample_proba",
+                                          sample_predictions_dict={"n_samples": 2}, **kw)
+
+    def ensemble(self, sym, table, K):
+        if sym:
+            return _sampling_classifier()
+        from skactiveml.classifier import ParzenWindowClassifier
+        return ParzenWindowClassifier(classes=[0, 1], class_prior=1.0, random_state=0).fit(np.array([[-1.0], [0.5], [2.0]]), np.array([0, 1, 0]))
+
+    def call(self, qs, s, b, sym, table=None, return_utilities=True):
+        return qs.query(s.X, s.y, self.ensemble(sym, table, s.K), fit_ensemble=False, candidates=s.cand, batch_size=b,
+                        return_utilities=return_utilities)
+
+
+_RNG_VARIANTS = {"QueryByCommittee[sample_proba]": AQBCSample,
+                 "TypiClust[rng-clusterer]": ATypiClustRng, "Clue[rng-clusterer]": AClueRng, "ProbCover[rng-clusterer]": AProbCoverRng,
                  "DropQuery[rng-clusterer]": ADropQueryRng,
                  "SubSamplingWrapper[UncertaintySampling]": ASubSampling,
                  "ParallelUtilityEstimationWrapper[UncertaintySampling]": AParallel}
